@@ -1,34 +1,46 @@
 import Spine.RegObj
 open Spine.RegObj
+/-! Line protocol for the duplicate check with object identity (C08). `cfg 1` = the code as written (feature objects
+    compared by DeepEqual), `cfg 0` = repaired (client compared by address). One peer. -/
 
 def showList (l : List String) : String := if l.isEmpty then "." else ",".intercalate l
 
-def answer (b : Bool) (s : St) (ws : List String) : St × String :=
-  match ws with
-  | ["sub", ce, cf, se, sf] =>
-    let c := (ce.toNat!, cf.toNat!); let sv := (se.toNat!, sf.toNat!)
-    (step b s (.sub 1 c sv), if granted b s 1 c sv then "ok" else "err")
-  | ["unsub", ce, cf, se, sf] =>
-    let c := (ce.toNat!, cf.toNat!); let sv := (se.toNat!, sf.toNat!)
-    let had := s.subs.any fun e => e.server = sv && e.peer = 1 && e.client = c
-    (step b s (.unsub 1 c sv), if had then "ok" else "err")
-  | ["data", ce, cf, v] => (step b s (.data 1 (ce.toNat!, cf.toNat!) v.toNat!), "done")
-  | ["reannounce", e] => (step b s (.reannounce 1 e.toNat!), "done")
-  | ["notify", se, sf] =>
-    (s, showList ((fanout s (se.toNat!, sf.toNat!)).map fun (_, c) => s!"{c.1}/{c.2}"))
-  | ["subs"] => (s, showList (s.subs.map fun e => s!"{e.id}:{e.server.1}/{e.server.2}<-{e.client.1}/{e.client.2}"))
-  | _ => (s, "bad-op")
+def nats (ws : List String) : Option (List Nat) := ws.mapM String.toNat?
 
-partial def loop (h : IO.FS.Stream) (b : Bool) (s : St) : IO Unit := do
+def answer (b : Bool) (s : St) (ws : List String) : Bool × St × String :=
+  match ws with
+  | ["sub", ce, cf, se, sf] => match nats [ce, cf, se, sf] with
+    | some [ce, cf, se, sf] =>
+      let c := (ce, cf); let sv := (se, sf)
+      (b, step b s (.sub 1 c sv), if granted b s 1 c sv then "ok" else "err")
+    | _ => (b, s, "bad-op")
+  | ["unsub", ce, cf, se, sf] => match nats [ce, cf, se, sf] with
+    | some [ce, cf, se, sf] =>
+      let c := (ce, cf); let sv := (se, sf)
+      let had := s.subs.any fun e => e.server = sv && e.peer = 1 && e.client = c
+      (b, step b s (.unsub 1 c sv), if had then "ok" else "err")
+    | _ => (b, s, "bad-op")
+  | ["data", ce, cf, v] => match nats [ce, cf, v] with
+    | some [ce, cf, v] => (b, step b s (.data 1 (ce, cf) v), "done")
+    | _ => (b, s, "bad-op")
+  | ["reannounce", e] => match e.toNat? with
+    | some e => (b, step b s (.reannounce 1 e), "done")
+    | none => (b, s, "bad-op")
+  | ["notify", se, sf] => match nats [se, sf] with
+    | some [se, sf] => (b, s, showList ((fanout s (se, sf)).map fun (_, c) => s!"{c.1}/{c.2}"))
+    | _ => (b, s, "bad-op")
+  | ["subs"] => (b, s, showList (s.subs.map fun e => s!"{e.id}:{e.server.1}/{e.server.2}<-{e.client.1}/{e.client.2}"))
+  | ["cfg", f] => (f == "1", s, "cfg")
+  | ["reset"] => (b, {}, "reset")
+  | _ => (b, s, "bad-op")
+
+partial def loop (h out : IO.FS.Stream) (b : Bool) (s : St) : IO Unit := do
   let line ← h.getLine
-  if line.isEmpty then return ()
+  if line.isEmpty then out.flush; return ()
   let ws := (line.trimAscii.toString.splitOn " ").filter (· ≠ "")
-  match ws with
-  | ["reset", f] => IO.println "ok"; (← IO.getStdout).flush; loop h (f == "1") {}
-  | _ =>
-    let (s', out) := answer b s ws
-    IO.println out
-    (← IO.getStdout).flush
-    loop h b s'
+  let (b', s', ans) := answer b s ws
+  out.putStrLn ans
+  out.flush
+  loop h out b' s'
 
-def main : IO Unit := do loop (← IO.getStdin) true {}
+def main : IO Unit := do loop (← IO.getStdin) (← IO.getStdout) true {}
